@@ -1281,6 +1281,84 @@ func rulePortableEndsAfterMatch(c *Check, p *Program, top *ssa.Function, rule st
 	ok, _ := reachAvoid(fn, best.Instrs[0], success, readsSrc)
 	c.Sites++
 	c.Cond(ok, rule, "go|decodeBlock#ends-after-match", p.InstrPos(best.Instrs[0]), "from the head of the sequence loop the success return is reachable without reading another source byte: a block may end right after a match, as the assembly decoders accept", "loop head tests the cursor against len(src) and leaves to the success return", "every path from the loop head to the success return reads the source first: a block whose last sequence is a match makes the portable decoder read past the end and report an error that the assembly decoders do not")
+	// ... and once a token has been read in an iteration, the block ends successfully only if the token announces no
+	// match (low nibble zero): a token with a match nibble whose offset is missing is a truncated sequence
+	nibbleZero := func(b *ssa.BasicBlock, k int) bool {
+		ifi, isIf := b.Instrs[len(b.Instrs)-1].(*ssa.If)
+		if !isIf || len(b.Succs) != 2 {
+			return false
+		}
+		bo, isB := ifi.Cond.(*ssa.BinOp)
+		if !isB || (bo.Op != token.EQL && bo.Op != token.NEQ) {
+			return false
+		}
+		x, y := bo.X, bo.Y
+		if _, isK := constUint(x); isK {
+			x, y = y, x
+		}
+		if kv, isK := constUint(y); !isK || kv != 0 {
+			return false
+		}
+		isNib := func(v ssa.Value) bool {
+			for i := 0; i < 3; i++ {
+				if cv, isC := v.(*ssa.Convert); isC {
+					v = cv.X
+					continue
+				}
+				break
+			}
+			and, isA := v.(*ssa.BinOp)
+			if !isA || and.Op != token.AND {
+				return false
+			}
+			m, isK := constUint(and.Y)
+			if !isK {
+				m, isK = constUint(and.X)
+			}
+			return isK && m == 0xF
+		}
+		if !isNib(x) {
+			return false
+		}
+		return (bo.Op == token.EQL && k == 0) || (bo.Op == token.NEQ && k == 1)
+	}
+	type wst struct {
+		b          *ssa.BasicBlock
+		read, zero bool
+	}
+	seenW := map[wst]bool{}
+	badAt := ""
+	var walkW func(s wst)
+	walkW = func(s wst) {
+		if seenW[s] || badAt != "" {
+			return
+		}
+		seenW[s] = true
+		read := s.read
+		for _, in := range s.b.Instrs {
+			if readsSrc(in) {
+				read = true
+			}
+			if success(in) {
+				if read && !s.zero {
+					badAt = p.InstrPos(in)
+				}
+				return
+			}
+			if isReturn(in) {
+				return
+			}
+		}
+		for k, nx := range s.b.Succs {
+			if nx == best {
+				continue // next sequence
+			}
+			walkW(wst{nx, read, s.zero || nibbleZero(s.b, k)})
+		}
+	}
+	walkW(wst{best, false, false})
+	c.Sites++
+	c.Cond(badAt == "", rule, "go|decodeBlock#end-after-literals-needs-zero-match-nibble", p.InstrPos(best.Instrs[0]), "within a sequence the block ends successfully only behind a test that the token's match nibble is zero: a token that announces a match and is followed by nothing but its literals is a truncated sequence", fmt.Sprintf("%d (block, token read, nibble tested) states walked", len(seenW)), "the success return at "+badAt+" is reachable after a token has been read without a test of its low nibble: a block cut off right after the literals of a sequence that announces a match is accepted")
 }
 
 
